@@ -691,7 +691,7 @@ class Engine:
         if isinstance(d,Agg):
             c=self.impl_index.get(('Clone',d.ty,'clone'))
             if c and len(c)==1:
-                return self.call_fn(run,c[0],[v if isinstance(v,Ref) else Ref(Cell(d))])
+                return self.call_fn(run,c[0],[ref1(v)])
         from .models import clone_val
         return clone_val(d)
 
@@ -716,7 +716,7 @@ class Engine:
         if not c or len(c)!=1: raise Unsupported('Display of '+self.type_of(d))
         buf=StringO([])
         fm=Ref(Cell(Opaque('Formatter',buf)))
-        r=self.call_fn(run,c[0],[v if isinstance(v,Ref) else Ref(Cell(d)),fm])
+        r=self.call_fn(run,c[0],[ref1(v),fm])
         return buf
 
     def fmt_value(self,run,kind,val):
@@ -734,6 +734,12 @@ class Engine:
             s=self.display(run,val); return list(s.b),s.taint
         if isinstance(d,Opaque): return list(b'<opaque>'),True
         raise Unsupported('fmt_value '+repr(d)[:60])
+
+def ref1(v):
+    """a single-level reference to the (non-reference) value behind v"""
+    if not isinstance(v,Ref): return Ref(Cell(v))
+    while isinstance(v.get(),Ref): v=v.get()
+    return v
 
 class _NewDecision(Exception):
     def __init__(self,feas): self.feas=feas
